@@ -577,7 +577,7 @@ def validate_real_traces(cfgs, records, name, timeout=900):
     return rejected, res
 
 
-def run_real_with_sigint(cfg, name, timeout=60):
+def run_real_with_sigint(cfg, name, timeout=60, send_signal=True):
     """Run the configuration in a child process (own session) and deliver a real SIGINT to the whole
     process group once every chain that can be running waits at the interrupt point."""
     import signal
@@ -588,7 +588,8 @@ def run_real_with_sigint(cfg, name, timeout=60):
     d = tlc.fresh_dir(name)
     (d / "cfg.json").write_text(json.dumps(cfg))
     env = dict(os.environ)
-    p = subprocess.Popen([sys.executable, "-m", "mbv.sampler_sigint", str(d / "cfg.json"), str(d / "out.json"), str(d)],
+    p = subprocess.Popen([sys.executable, "-m", "mbv.sampler_sigint", str(d / "cfg.json"), str(d / "out.json"),
+                          str(d) if send_signal else "-"],
                          env=env, start_new_session=True, stdout=subprocess.DEVNULL, stderr=subprocess.PIPE)
     want = min(cfg["nchain"], max(cfg["nproc"], 1))
     t0 = time.time()
@@ -596,7 +597,7 @@ def run_real_with_sigint(cfg, name, timeout=60):
     while time.time() - t0 < timeout:
         if p.poll() is not None:
             break
-        if not sent and len(list(d.glob("at_barrier_*"))) >= want:
+        if send_signal and not sent and len(list(d.glob("at_barrier_*"))) >= want:
             time.sleep(0.05)
             os.killpg(p.pid, signal.SIGINT)
             sent = True
@@ -612,6 +613,6 @@ def run_real_with_sigint(cfg, name, timeout=60):
         return {"exception": f"ChildDied: rc={p.returncode} {err}"}
     obs = json.loads((d / "out.json").read_text())
     shutil.rmtree(d, ignore_errors=True)
-    if not sent:
+    if send_signal and not sent:
         obs["exception"] = obs.get("exception") or "NoSignal: run finished before the barrier was reached"
     return obs
